@@ -73,6 +73,7 @@ def eval (F : Facts) : List String → Option String
     let disc := if kv bind = "0" then " discovered=6" else ""
     some (if F.sharedGuarded then s!"own={n} crossed=0 err=0 races=0{disc}" else "unspecified")
   | ["route-twice", _, _] => some "all-from-bind-address-and-port"
+  | ["route-occupied", _, _] => some "occupied nothing-from-another-address-or-port"
   | ["route", _, bind, want] =>
     let src := if kv bind = "0" then "source-port-ephemeral" else "source-port-bound"
     some s!"ok heard=[{kv want} x1] {src}"
